@@ -24,6 +24,7 @@ def run(rep):
     rep.guard(b9, rep, w)
     rep.guard(b10, rep, w)
     rep.guard(b11, rep, w)
+    rep.guard(b12, rep, w)
     import c04_narrow
     rep.guard(c04_narrow.b4, rep, w)
     rep.guard(c04_narrow.b4n, rep, w)
@@ -886,6 +887,36 @@ def b11(rep, w):
                 heads.add(h)
     r.check(bool(ends) and c01.all_paths_hit(f, None, ends | heads), 'end_scope: emit_scope_end on every path', 'end_scope can leave a scope without emitting the pops for its locals: on a path that '
             'falls out of the block the locals stay on the stack and every later local of the function is read one slot off', f.loc())
+
+
+def b12(rep, w):
+    """an operand that names a constant names the value the compiler meant: Chunk::add_constant answers with the index of a new entry or with
+    the index the value-keyed map already holds for that very value (Value's own equality) - never with the result of some other search over
+    the table, which would let two different values (two functions with equal code but different constants of their own) share a slot."""
+    r = rep.rule('B12', 'add_constant returns a new index or the index its value-keyed map holds for that value', floor=1)
+    f = w.require_fn('yarel::chunk::Chunk::add_constant', 'C04')
+    org = origins(f)
+    roots = org.get(0, ())
+    bad = []
+    for q in roots:
+        if q[0][0] == 'call':
+            nm = strip_generics(q[0][2])
+            tail = nm.rsplit('::', 1)[-1]
+            is_map = 'HashMap' in nm or 'hash_map' in nm or 'hash::map' in nm
+            if tail == 'len' or (is_map and tail in ('entry', 'or_insert_with', 'or_insert', 'get', 'insert', 'or_insert_with_key', 'get_or_insert_with')):
+                continue
+            bad.append(tail)
+        elif q[0][0] == 'const':
+            bad.append('constant %s' % (q[0][1],))
+        elif q[0][0] == 'arg':
+            bad.append('argument %s' % (q[0][1],))
+        else:
+            bad.append(str(q[0][0]))
+        if '#bin' in q[1:]:
+            bad.append('arithmetic')
+    r.check(bool(roots) and not bad, 'add_constant: result is len() or the map entry of the value',
+            'add_constant can answer with an index obtained from %s: a value can be given the slot of a different constant (code that loads "its" constant loads the other one)'
+            % sorted(set(bad)), f.loc())
 
 
 # ---- B5 -------------------------------------------------------------------------------------------------------------
